@@ -89,6 +89,12 @@ fn layout_for(nfiles: usize, nblocks: usize) -> LayoutSpec {
     }
 }
 
+const FOREIGN_TMP: &[u8] = b"txid;indexOut;height;value;address\n(temporary file of an interrupted run of another callback)\n";
+
+fn foreign_stems(cb: Callback) -> Vec<&'static str> {
+    FILE_CALLBACKS.iter().filter(|o| **o != cb).flat_map(|o| o.stems().iter().copied()).collect()
+}
+
 fn tmp_paths(cb: Callback, dump: &std::path::Path) -> Vec<PathBuf> {
     cb.stems().iter().map(|s| dump.join(format!("{}.csv.tmp", s))).collect()
 }
@@ -208,6 +214,11 @@ pub fn check(c: &Case) -> Verdict {
         for stem in c.cb.stems() {
             infra!(std::fs::write(dump.join(format!("{}.csv.tmp", stem)), &junk).map_err(|e| e.to_string()));
         }
+        // ... and temporary files of the OTHER file-producing callbacks (an interrupted unspentcsvdump run, say): they are
+        // not this run's to touch
+        for stem in foreign_stems(c.cb) {
+            infra!(std::fs::write(dump.join(format!("{}.csv.tmp", stem)), FOREIGN_TMP).map_err(|e| e.to_string()));
+        }
     }
     let mut of = o.clone();
     let mut limit = None;
@@ -238,7 +249,19 @@ pub fn check(c: &Case) -> Verdict {
         }
         _ => {}
     }
-    let out = infra!(vpmodel::run::run_tool(&data_dir, &dump, &of));
+    let mut out = infra!(vpmodel::run::run_tool(&data_dir, &dump, &of));
+    if c.stale_tmp && !startup {
+        for stem in foreign_stems(c.cb) {
+            let name = format!("{}.csv.tmp", stem);
+            if out.files.get(&name).map(|v| v.as_slice()) != Some(FOREIGN_TMP) && out.signal != Some(9) {
+                return Verdict::Fail(format!("fault {:?}: the run {} {}, a temporary file of another callback", c.fault, if out.files.contains_key(&name) { "rewrote" } else { "removed or renamed" }, name));
+            }
+            out.files.remove(&name);
+            if let Some(f) = out.files.keys().find(|k| k.starts_with(&format!("{}-", stem))) {
+                return Verdict::Fail(format!("fault {:?}: the run published {} - a file of another callback's output that it never wrote", c.fault, f));
+            }
+        }
+    }
     if out.timed_out {
         return Verdict::Infra(format!("faulted run hit the watchdog: {}", out.describe()));
     }
